@@ -655,7 +655,9 @@ func vp9RtCase(x *Ctx, mk func(c *Case) (flex bool, init int, calls []vp9Call)) 
 		all := make([][][]byte, 0, len(calls))
 		for _, cl := range calls {
 			var frags [][]byte
-			if try(func() { frags = pay.Payload(uint16(cl.MTU), cloneBytes(cl.Frame)) }) {
+			// the frame is handed over exactly sized or as a window of a larger array (payWindow)
+			_, in := payWindow(cl.Frame, cl.MTU)
+			if try(func() { frags = pay.Payload(uint16(cl.MTU), in) }) {
 				c.O.Tok("PAYLOAD-PANIC")
 				return
 			}
